@@ -255,6 +255,8 @@ def elements(R, tier):
     return e[:lim] if len(e) > lim else e
 
 def ring_key(case, op, cls):
+    if cls in ('value/even-modulus', 'zero-divisor-hang', 'zero-divisor-crash') and case['creator'] != 'gf2Create':
+        return 'ring:zm*:inv|div:%s' % cls          # one root cause (zzInvMod / zzDivMod behind every zm / gfp ring)
     return 'ring:%s:%s:%s' % (case['creator'], op, cls)
 
 def run_ring(case):
